@@ -64,14 +64,20 @@ META['C05'] = {
 META['C01'] = {
     'text': 'Verus proves that every post-tokenizer planning pass consults the quote tag: pipe splitting is the exact inverse of joining at unquoted "|" tokens only; '
             'only an unquoted trailing "&" backgrounds; only unquoted "<" / "<<<" are taken as stdin redirection; quoted tokens and tokens without ">" pass '
-            'tokens_to_redirections unchanged; composed: a planned token list of quoted/plain arguments becomes exactly one command with exactly those tokens.',
-    'note': 'tokenizer functional clause (line -> tagged tokens) for the quoted sub-language and the expansion passes are separate units; argv construction at execve is '
-            'read, not verified; escaped unquoted words lose their escape in parse_line (architectural; known finding when claimed).',
+            'tokens_to_redirections unchanged; composed: a planned token list of quoted/plain arguments becomes exactly one command with exactly those tokens. '
+            'For the tokenizer itself: line_to_cmds\' quote/escape state equals a specified state machine (so quoted or escaped ; && || never split); parse_line keeps four '
+            'state invariants: spaces are skipped only between words, a pending literal tag belongs to the word in progress, and the step that consumes a backslash-escaped '
+            'operator / expansion character (> < & * ~ { ` $ |) tags the word as literal; expand_env skips literal- and backslash-tagged words; argv at exec is the token texts in order.',
+    'note': 'the parse_line invariants are stated up to the first concatenated quoting ("a"\'b\', a"b"), which is not one of the property\'s argument forms (ghost scope flag); a full '
+            'functional specification of parse_line is not claimed; the bounded engine enumerates quoted / escaped argument lists through the real binary.',
 }
 META['C13'] = {
     'text': 'The same tag-honouring contracts as C01 decide the double-quoted half: a token that still carries a quote tag after expansion is never split at "|", '
-            'never taken as "&", "<", "<<<" or an output redirection, for all token texts.',
-    'note': 'that expansion passes keep/set the tag is proved in U-EXP; the unquoted half ($X unquoted keeps an empty tag and is re-read) is architectural.',
+            'never taken as "&", "<", "<<<" or an output redirection, for all token texts. Unquoted half (after fix 8430d58): expand_env, both substitution passes and '
+            'expand_glob tag a word as double-quoted when the value / output / file name brings | & < > into it (ghost record taken where the output is obtained), so the same '
+            'tag-honouring contracts apply to it.',
+    'note': 'NAME=value assignment words are exempt (they are taken off the line before operators are looked for); a word that already contained an operator character before '
+            'expansion is not tagged; has_operator_char is verified against its spec; glob::glob and the regexes are uninterpreted.',
 }
 
 META['C12'] = {
@@ -80,7 +86,7 @@ META['C12'] = {
             'the numeric range is the inclusive arithmetic sequence toward the end bound (no overflow, terminates); a glob pattern never vanishes, hidden entries are filtered by '
             'the stated rule; the recursive brace parser is memory-safe and terminates on every string.',
     'note': 'regexes (gates, range captures) and glob::glob are uninterpreted shims; str::parse::<i32> by its std contract; tokens shorter than 2^31 chars; the functional brace '
-            'grammar (cartesian product) and text around {m..n} are not claimed (see DESIGN); expand_home in U-EXP2.',
+            'grammar (cartesian product) is not claimed (bounded cases only); the text around {m..n} is kept (head + number + tail, after fix b950024); expand_home in U-EXP2.',
 }
 
 META['C19'] = {
@@ -103,8 +109,8 @@ META['C17'] = {
     'text': 'Verus proves that expand_alias replaces exactly the words at head positions (line start or after an unquoted "|"; documented exception after a head `xargs`) that are '
             'aliases with a non-empty value, each by the tokenization of its value spliced in place in ONE pass (inserted words are never inspected again), everything else '
             'unchanged and in order; alias table operations have whole-map postconditions (add, lookup, unalias removes exactly n).',
-    'note': 'HashMap<String,String> contracts stated over string views (shims); parse_line of the value uninterpreted; the alias builtin (definition regex, listing format) '
-            'is not under contract; the xargs special case is cicada\'s documented behaviour and is part of the head-position definition.',
+    'note': 'HashMap<String,String> contracts stated over string views (shims); parse_line of the value uninterpreted; the listing line (format_alias) is under contract: the value '
+            'is wrapped in a quote character it does not contain; the alias builtin\'s definition regex is not under contract (bounded cases); the xargs special case is cicada\'s documented behaviour and is part of the head-position definition.',
 }
 
 META['C02'] = {
@@ -119,7 +125,8 @@ META['C04'] = {
     'text': 'Verus proves that at exec the descriptors 1 and 2 of a stage are exactly the result of applying its redirections left to right (N>&M copies what M refers to at that point; '
             '> truncates, >> appends) on top of the pipeline wiring, and descriptor 0 is the < file, the here-string pipe or the previous stage; redirect descriptors are 1 or 2; '
             'unopenable targets exit(1) before exec; only the redirected stage is affected (the shell\'s table is restored).',
-    'note': 'regex captures of redirection spellings are uninterpreted (triples as produced); builtins\' own descriptor computation (_get_std_fds) not under contract; open(2) semantics assumed; '
+    'note': 'regex captures of redirection spellings are uninterpreted (triples as produced), but the pending state of an operator whose target is the next word is proved to be that of '
+            'the previous word; builtins\' own descriptor computation (_get_std_fds and the print helpers) is under contract in U-BFD; open(2) semantics assumed; '
             'known finding: N>&M is skipped on the captured last stage ($(cmd 2>&1)).',
 }
 META['C08'] = {
@@ -127,7 +134,7 @@ META['C08'] = {
             'open (descriptors with FD_CLOEXEC are not counted) and that run_pipeline leaves the shell\'s descriptor table exactly as it found it on every path, including pipe() '
             'failure while creating the stage pipes or the capture pipes.',
     'note': 'precondition: the shell itself has only 0,1,2 (plus close-on-exec handles: history DB, log) when a pipeline starts; POSIX semantics assumed; builtins\' print helpers '
-            '(dup of 1/2) not under contract; known finding: when starting a stage fails (here-string pipe or fork error) that stage\'s descriptors stay open.',
+            '(dup of 1/2) are under contract in U-BFD (the table afterwards = the table before + exactly the descriptors handed back); known finding: when starting a stage fails (here-string pipe or fork error) that stage\'s descriptors stay open.',
 }
 
 META['C09'] = {
@@ -135,8 +142,8 @@ META['C09'] = {
             'value iff the name is exported, else defines a shell variable only; get_env / expansion read the shell variable first, then the environment; unset (remove_env) '
             'removes the name from both (and the function of that name) iff it is an identifier, else changes nothing; cd: on success shell, $PWD and process directory all equal the '
             'canonical target and the previous directory is recorded, on any failure nothing changes and the status is 1; NAME=v lines assign every name.',
-    'note': 'std::env and chdir semantics assumed (ghost model); filesystem queries uninterpreted; export (regex captures), read (field splitting: str::split) and the child '
-            'environment construction (inside the exec region) are not under contract; HashMap contracts stated over string views.',
+    'note': 'std::env and chdir semantics assumed (ghost model); filesystem queries uninterpreted; export (regex captures) and the child environment construction (inside the exec region) are '
+            'not under contract; read is (U-READ: fields to the names in order, remainder to the last; field splitting itself uninterpreted); HashMap contracts stated over string views.',
 }
 
 META['C15'] = {
@@ -152,16 +159,18 @@ META['C07'] = {
             'the shell records that pid as the group id); the terminal is given only to the first stage of a foreground tty pipeline, never to a background one, and only if that is '
             'reported to the caller; run_proc takes the terminal back on every return path; a line is background exactly when its last token is an unquoted "&"; the job-state '
             'bookkeeping clauses shared with C06 (Stopped iff all members stopped as computed; no background event lost).',
-    'note': 'NOT covered (outside any single-call contract): what Ctrl-C / Ctrl-Z do, that bg / fg resume the whole group (SIGCONT), the text printed by jobs, report-once; kernel tty '
-            'layer and tcsetpgrp success assumed; fg/bg builtins not under contract.',
+    'note': 'bg / fg are under contract (U-JCMD): the job found gets SIGCONT as a whole group, fg hands it the terminal, waits for all its members and takes the terminal back. '
+            'NOT covered (outside any single-call contract): what Ctrl-C / Ctrl-Z do, the text printed by jobs, report-once; kernel tty layer and tcsetpgrp success assumed.',
 }
 
 META['C11'] = {
     'text': 'Partial. Verus proves for both substitution passes that only words that are not single-quoted / escaped and that contain a substitution may change, that tags and the '
             'number of tokens never change, that the index bookkeeping stays in step on every path (error paths included), that an inner command is run at most once per planning, '
-            'and termination of the rewrite loops (the $(..) loop under the stated assumption that one replace removes one substitution).',
-    'note': 'NOT covered: that the replacement is the command\'s stdout, trailing-newline trimming, literal splicing (Regex::replace interprets $1/${x} in the output; the '
-            'inserted text is scanned again): these are regex/kernel behaviours left uninterpreted; inner from_line / run_pipeline are external.',
+            'and termination of the rewrite loops (the $(..) loop under the stated assumption that one replace removes one substitution); that one $(..) step yields '
+            'head + output + tail with the output inserted literally (template semantics of Regex::replace assumed and validated by axcheck); that a builtin captures its output '
+            'only as the last stage of a captured pipeline.',
+    'note': 'NOT covered by contracts: that the replacement is the command\'s stdout and the trimming (kernel / std); known findings: the inserted text is scanned again (an output '
+            'containing $(cmd) is executed), two substitutions in ONE word are taken as one (greedy pattern); inner from_line / run_pipeline are external.',
 }
 
 _PENDING = 'not yet brought under contract in this revision of /verif (work in progress; see DESIGN.md)'
